@@ -763,12 +763,21 @@ class TagAttributes(MutableMapping):
 
     def _etree_key(self, item: QualifiedName) -> str:
         namespace, name = item
+        default_namespace = self._node._etree_obj.nsmap.get(None)
 
         if namespace and (
-            self._node._etree_obj.nsmap.get(None) != namespace
+            default_namespace != namespace
             or f"{{{namespace}}}{name}" in self._etree_attrib
         ):
             return f"{{{namespace}}}{name}"
+        elif (
+            not namespace
+            and default_namespace
+            and name not in self._etree_attrib
+            and f"{{{default_namespace}}}{name}" in self._etree_attrib
+        ):
+            # no namespace and the default namespace address the same attribute
+            return f"{{{default_namespace}}}{name}"
         else:
             return name
 
